@@ -295,11 +295,16 @@ class Interp:
                     root, path = leaf[1], leaf[2]
                 else:
                     # unknown pointer: materialise an anonymous object it points to
-                    nroot = ("A", root, path)
                     if leaf[0] == "term":
-                        st.write_leaf(nroot, (), ("term", ("deref", leaf[1])))
-                    elif nroot not in st.mem:
-                        st.write_leaf(nroot, (), TOP)
+                        # the pointee of an opaque pointer value is identified by that value (equal pointers
+                        # share it; it outlives the frame that dereferenced it first)
+                        nroot = ("G", leaf[1])
+                        if nroot not in st.mem:
+                            st.write_leaf(nroot, (), ("term", ("deref", leaf[1])))
+                    else:
+                        nroot = ("A", root, path)
+                        if nroot not in st.mem:
+                            st.write_leaf(nroot, (), TOP)
                     st.write_leaf(root, path, ("ref", nroot, ()))
                     root, path = nroot, ()
             elif k == "field":
@@ -1013,6 +1018,9 @@ class Interp:
                 return out
             if agg == "array":
                 out[()] = ("array", len(ops))
+                for i, t in enumerate(ops):
+                    for rp, l in t.items():
+                        out[(("f", "#%d" % i),) + rp] = l
                 return out
             return out
         if k == "repeat":
